@@ -62,6 +62,7 @@ type fctx struct {
 	ghostCalls map[string]int
 	ovfCount int
 	ifaceFactsPending bool
+	capturedEntry map[string]*Value // closure units: entry values of captured locals (visible in old())
 }
 
 type modLoc struct {
